@@ -205,11 +205,13 @@ CHECKS = {
        "receiver state (v3.1.1, and v5.0 with no topic alias in play and the packets within the negotiated limits; automatic responses, intact link): one QoS 1 exchange and one QoS 2 exchange complete - PUBLISH requested, "
        "notified exactly once, every acknowledgement requested by one side is accepted by the other, the identifier is released at the end "
        "and nothing of the exchange stays behind (v5.0: the Receive Maximum slot is given back), no call panics (C01_pair_qos1_completes, "
-       "C01_pair_qos2_completes, ..._v5), tied to step by C01_send_call_is_send_publish / C01_recv_call_is_deliver (..._v5). A pair invariant with a termination measure for arbitrarily many concurrent "
-       "exchanges, loss points and v5.0 limits is NOT proved (C01_partial): that is the monitor's part.",
+       "C01_pair_qos2_completes, ..._v5), tied to step by C01_send_call_is_send_publish / C01_recv_call_is_deliver (..._v5); and ANY NUMBER of v3.1.1 QoS 1/2 messages in sequence with "
+       "identifier reuse are delivered exactly once each, in order, with no failure of any kind, by induction on a pair invariant "
+       "(C01_pair_sequence_exactly_once, about the executable run run_seq). A pair invariant with a termination measure for arbitrarily many concurrent "
+       "exchanges in flight, delivery interleavings and loss points is NOT proved (C01_partial): that is the monitor's part.",
   ref="DESIGN.md §3 C01",
   note=CONN_NOTE + " C01 replays re-run the seeded scheduler of the case on the current implementation (no shrinking).",
-  technique="system-level monitor on pairs of implementation objects + full-digest correspondence with the Coq model + per-endpoint Coq theorems and single-exchange pair theorems (QoS 1/2 completion)"),
+  technique="system-level monitor on pairs of implementation objects + full-digest correspondence with the Coq model + per-endpoint Coq theorems and pair theorems (QoS 1/2 completion, v3.1.1 and v5.0; sequences of exchanges by induction on a pair invariant)"),
  "C12": dict(
   text="Coq theorems, Closed under the global context, for every state and every M: the vacancy getter is M minus the counter saturating at "
        "zero (never wraps or panics); a QoS>0 PUBLISH arriving when the peer already has the announced maximum outstanding is answered "
